@@ -13,7 +13,8 @@ engines = {"S": [], "Q": []}
 for pr in props:
     pid = pr["id"]
     sp = os.path.join(V, "harness", pid, "spec.json")
-    if not os.path.exists(sp):
+    enabled = open(os.path.join(V, "harness", "ENABLED")).read().split()
+    if not os.path.exists(sp) or pid not in enabled:
         na.append({"property_id": pid, "reason": na_reasons.get(pid, "no check registered yet: the harness planned in DESIGN.md section 5 for this property has not been built in this round")})
         continue
     spec = json.load(open(sp))
